@@ -55,6 +55,18 @@ Theorem C21_superseded_never_deletes_live : forall c expire, rc_takenover c = tr
   hook_awrites (EDisconnect c expire) = [].
 Proof. exact superseded_no_client_writes. Qed.
 
+(* Clean Start 1: once the writes have discarded everything recorded for a client id - which the
+   broker has to have done when it establishes the clean session; checked on every recorded history
+   by [clean_start_leftover] - a restart restores no subscription and no in-flight message for it. *)
+Theorem C21_clean_start_nothing_restored : forall maxcap aws b c,
+  key_limit_exceeded aws = false -> KF_C20_sub_key_collision aws = false ->
+  KF_C20_irregular_expiry maxcap aws = false -> pids_ok aws = true ->
+  session_leftover c (arun aws) = false ->
+  forall f pid,
+    rest_sub (restart maxcap (read_back (run_awrites b aws))) (c, f) = None /\
+    rest_ifm maxcap (restart maxcap (read_back (run_awrites b aws))) (c, pid) = None.
+Proof. exact clean_start_nothing_restored. Qed.
+
 (* non-vacuity: at the crash point between deleting the client record of an ended session and
    deleting its subscriptions, the restarted broker has neither the session nor the subscription *)
 Definition gone : client_rec := mkClientRec (tag "g:1") (tag "t") [] [] true 4 0 false 0 false (VL []) (VL []).
@@ -91,3 +103,4 @@ Print Assumptions C21_refuted.
 Print Assumptions C21_crash_modulo_findings.
 Print Assumptions C21_untouched_state_kept.
 Print Assumptions C21_superseded_never_deletes_live.
+Print Assumptions C21_clean_start_nothing_restored.
